@@ -454,6 +454,10 @@ def run(ctx):
                 "prefix of its journal is audited (operations repeated on an identical disk are audited once)",
         "samples": [core.abridge(sample, 3), core.abridge([r for r in rows_s[:4]], 4)],
         "exhaustive": True,
+        "exhaustive_scope": "the replayed graph models (graph_*): every state of the bounded TMStoreNode graph is reached on "
+                            "the real stores and every crash image of every operation on it is audited; the larger exh_* "
+                            "models are model-checked only; long chains, random histories and the state-store scenarios "
+                            "are additional (sampled) coverage",
         "tlc_runs": ctx.tlc_stats,
         "exhaustive_models": {k: {"distinct": r.distinct, "generated": r.generated, "depth": r.depth} for k, r in exh.items()},
         "replayed_graphs": gstats,
